@@ -278,3 +278,26 @@ func init() {
 		Quick: 3, Thorough: 4, Desc: "Start and two CallAsync arrive (in every order) while an execution of the key is in progress, then it is released",
 		Opts: vrt.Options{Delay: true}, Run: xSuccessor, Check: exclusiveCheck})
 }
+
+// X-rate-cancel: the rate limit's context is cancelled while the rate-limited work is in flight;
+// a plain call on the same key follows.
+func xRateCancel() {
+	x := &xEnv{e: new(Exclusive)}
+	ctx, cancel := context.WithCancel(context.Background())
+	defer cancel()
+	x.wg.Add(3)
+	go x.rate(1, ctx, "k", "w1", 10*time.Millisecond)
+	go func() {
+		defer x.wg.Done()
+		vrt.Log("rate-cancel")
+		cancel()
+	}()
+	go x.call(3, "k", "w3", 0)
+	x.finish("k")
+}
+
+func init() {
+	vrt.Register(&vrt.Scenario{Name: "X-rate-cancel", Props: []string{"C09:overlap,key-", "C10", "C11:race", "C12:goroutine-leak"},
+		Quick: 3, Thorough: 4, Desc: "a rate-limited call whose context is cancelled at any point of its work, and a plain Call on the same key",
+		Opts: vrt.Options{Delay: true}, Run: xRateCancel, Check: exclusiveCheck})
+}
